@@ -1,9 +1,40 @@
 package twig
 
 import (
+	"fmt"
 	"io"
+	"reflect"
+	"sort"
 	"strconv"
 )
+
+// sortedMapKeys returns the keys of a map value in an order that depends only on
+// the keys themselves (numeric keys numerically, everything else by its string form),
+// never on Go's randomized map iteration order.
+func sortedMapKeys(m reflect.Value) []reflect.Value {
+	keys := m.MapKeys()
+	sort.SliceStable(keys, func(i, j int) bool {
+		a, b := keys[i], keys[j]
+		for a.Kind() == reflect.Interface && !a.IsNil() {
+			a = a.Elem()
+		}
+		for b.Kind() == reflect.Interface && !b.IsNil() {
+			b = b.Elem()
+		}
+		switch {
+		case a.CanInt() && b.CanInt():
+			return a.Int() < b.Int()
+		case a.CanUint() && b.CanUint():
+			return a.Uint() < b.Uint()
+		case a.CanFloat() && b.CanFloat():
+			return a.Float() < b.Float()
+		case a.Kind() == reflect.String && b.Kind() == reflect.String:
+			return a.String() < b.String()
+		}
+		return fmt.Sprint(a) < fmt.Sprint(b)
+	})
+	return keys
+}
 
 // countNewlines counts newlines in a string without allocations.
 // This is a zero-allocation replacement for strings.Count(s, "\n")
